@@ -401,3 +401,35 @@ fn link_local_root() {
     let name = Name::new_with_labels(&[]);
     assert!(!name.is_link_local());
 }
+
+// ================================================================ C11: a parsed header survives re-serialisation
+#[kani::proof]
+#[kani::unwind(14)]
+fn header_reserialise_named() {
+    let buf: [u8; 12] = kani::any();
+    let fl = be(buf[2], buf[3]);
+    let (op, rc) = (ref_opcode(fl), ref_rcode(fl));
+    kani::assume(!(op == 3 || op >= 6 || rc >= 11));      // named opcodes / rcodes
+    if let Ok(h) = Header::parse(&buf) {
+        let mut out = [0u8; 12];
+        let mut w: &mut [u8] = &mut out[..];
+        h.write_to(&mut w, be(buf[4], buf[5]), be(buf[6], buf[7]), be(buf[8], buf[9]), be(buf[10], buf[11])).unwrap();
+        assert!(out == buf);
+    }
+}
+
+// D11 (known finding): reserved opcodes / rcodes are collapsed into one `Reserved` variant and written back as 6 / 1
+#[kani::proof]
+#[kani::unwind(14)]
+fn header_reserialise_reserved() {
+    let buf: [u8; 12] = kani::any();
+    let fl = be(buf[2], buf[3]);
+    let (op, rc) = (ref_opcode(fl), ref_rcode(fl));
+    kani::assume(op == 3 || op >= 6 || rc >= 11);
+    if let Ok(h) = Header::parse(&buf) {
+        let mut out = [0u8; 12];
+        let mut w: &mut [u8] = &mut out[..];
+        h.write_to(&mut w, be(buf[4], buf[5]), be(buf[6], buf[7]), be(buf[8], buf[9]), be(buf[10], buf[11])).unwrap();
+        assert!(out == buf);
+    }
+}
